@@ -69,3 +69,123 @@ Eval vm_compute in flat_map enc cases.
             comp["diffs"].append({"what": "vm_compute and extracted driver disagree", "molecule": am.to_json(), "coq": got[:60], "driver": exp[:60]})
     if len(per) != len(ams):
         comp["diffs"].append({"what": "could not align Coq output with the cases", "cases": len(ams), "parsed": len(per)})
+
+
+# ------------------------------------------------------------------ text-level functions: ref_parse, antlr_recognise, read_molfile
+def _coq_string(s):
+    return '"' + s.replace('"', '""') + '"'
+
+
+def _printable(s):
+    return all(c == "\n" or 32 <= ord(c) < 127 for c in s)
+
+
+def run_xcheck_text(run, model, n_strings=150, n_files=40):
+    """the same strings / molfile texts through vm_compute and through the extracted driver"""
+    import misc_checks, text_checks as TC
+    rng = run.sub_rng("xcheck-text")
+    strings = list(misc_checks.HAND_TUCAN) + list(misc_checks.HAND_BAD)
+    for am in gens.standard_stream(rng, "quick"):
+        if 1 <= am.n() <= 12:
+            s0 = impl.tucan_of(impl.graph_of(am))
+            strings.append(s0)
+            strings.append(misc_checks._mutate(s0, rng))
+        if len(strings) >= n_strings:
+            break
+    strings = [x for x in dict.fromkeys(strings) if _printable(x) and "\n" not in x and len(x) < 300]
+    texts = []
+    for mm in TC.mm_stream(run.sub_rng("xcheck-mm"), n_files, v2ok=True, stars=False, nmax=8):
+        texts.append(TC.render3000(mm, rng, **TC.random_knobs3(rng)))
+        if TC.v2ok(mm):
+            texts.append(TC.render2000(mm, rng, **TC.random_knobs2(rng)))
+        for name, tx in list(TC.malformed3000(mm, rng))[:3]:
+            texts.append(tx)
+    texts = [x.replace("\r\n", "\n") for x in texts]
+    texts = [x for x in dict.fromkeys(texts) if _printable(x) and "\r" not in x][:3 * n_files]
+    src = """From Coq Require Import List NArith ZArith Ascii String.
+Require Import Base Mol Text Token Parse Molfile V2000 AntlrItem AntlrExec.
+Import ListNotations.
+Open Scope N_scope.
+Definition oz (o : option Z) : list N := match o with None => [900001] | Some v => [900002; Z.abs_N v; (if Z.ltb v 0 then 1 else 0)] end.
+Definition encp (s : string) : list N :=
+  (match antlr_recognise (t s) with AntlrAccept => 1 | AntlrSyntaxError => 2 | AntlrLexError => 3 end) ::
+  (match ref_parse (t s) with
+   | inl ELex => [11] | inl ESyntax => [12] | inl ESelfLoop => [13] | inl EBadIndex => [14] | inl EDupAttr => [15]
+   | inr g => 20 :: N.of_nat (length (atoms g)) :: N.of_nat (length (bonds g)) ::
+              flat_map (fun a => lbl a :: zn a :: oz (mass a) ++ oz (rad a)) (atoms g) ++ flat_map (fun b => [fst (fst b); snd (fst b)]) (bonds g)
+   end) ++ [2000000].
+Definition encm (s : string) : list N :=
+  (match read_molfile (t s) with
+   | inl EParser => [31] | inl EOther => [32]
+   | inr g => 40 :: N.of_nat (length (atoms g)) :: N.of_nat (length (bonds g)) ::
+              flat_map (fun a => lbl a :: zn a :: oz (mass a) ++ oz (rad a) ++ oz (p_chg (pay a))) (atoms g) ++
+              flat_map (fun b => fst (fst b) :: snd (fst b) :: oz (Some (snd b))) (bonds g)
+   end) ++ [2000000].
+Eval vm_compute in flat_map encp [
+%s ]%%string ++ [3000000] ++ flat_map encm [
+%s ]%%string.
+""" % (";\n".join(_coq_string(x) for x in strings), ";\n".join(_coq_string(x) for x in texts))
+    d = os.path.join(common.BUILD, "xcheck")
+    os.makedirs(d, exist_ok=True)
+    open(os.path.join(d, "XText.v"), "w").write(src)
+    rc, out = common.sh('timeout 1500 coqc -Q %s/gen "" -Q %s/Model "" -Q %s "" %s/XText.v 2>&1' % (common.COQ, common.COQ, d, d), timeout=1600)
+    comp = run.comp("X-extraction")
+    if rc != 0:
+        comp["diffs"].append({"what": "coqc failed on the text cross-check file", "log": out[-800:]})
+        return
+    nums = [int(x) for x in re.findall(r"\d+", out.split("=", 1)[1].rsplit(":", 1)[0])]
+    cut = nums.index(3000000)
+    def split(ns):
+        per, cur = [], []
+        for v in ns:
+            if v == 2000000:
+                per.append(cur); cur = []
+            else:
+                cur.append(v)
+        return per
+    per_s, per_t = split(nums[:cut]), split(nums[cut + 1:])
+    if len(per_s) != len(strings) or len(per_t) != len(texts):
+        comp["diffs"].append({"what": "could not align Coq output with the text cases", "cases": [len(strings), len(texts)], "parsed": [len(per_s), len(per_t)]})
+        return
+    def oz(v):
+        return [900001] if v is None else [900002, abs(v), 1 if v < 0 else 0]
+    perr = {"lex": 11, "syntax": 12, "selfloop": 13, "badindex": 14, "dupattr": 15}
+    for x, got in zip(strings, per_s):
+        comp["cases"] += 1
+        a = model.q("antlr " + common.hx(x)).split(" ")[0]
+        exp = [{"accept": 1, "syntax": 2, "lex": 3}[a]]
+        r = model.q("parse " + common.hx(x))
+        if r.startswith("err "):
+            exp.append(perr[r[4:]])
+        else:
+            atoms, bonds, _ = common.dec_mol(r.split()[1:])
+            exp += [20, len(atoms), len(bonds)]
+            for l, z, m, rd, _p in atoms:
+                exp += [l, z] + oz(m) + oz(rd)
+            for u, v in bonds:
+                exp += [u, v]
+        if got != exp:
+            comp["diffs"].append({"what": "vm_compute and extracted driver disagree on a TUCAN string", "s": x, "coq": got[:60], "driver": exp[:60]})
+    for x, got in zip(texts, per_t):
+        comp["cases"] += 1
+        mo = TC.model_read(model, x)
+        if mo[0] == "parser":
+            exp = [31]
+        elif mo[0] == "other":
+            exp = [32]
+        elif mo[0] == "ok":
+            ans = model.q("readmol " + common.hx(x))
+            tk = ans.split()[1:]
+            n = int(tk[0]); i = 1; exp_atoms = []
+            o = lambda v: None if v == "_" else int(v)
+            for _ in range(n):
+                lbl, zn, mass, rad, part, sym, chg, xx, yy, zz = tk[i:i + 10]; i += 10
+                exp_atoms += [int(lbl), int(zn)] + oz(o(mass)) + oz(o(rad)) + oz(o(chg))
+            kb = int(tk[i]); i += 1; exp_b = []
+            for _ in range(kb):
+                exp_b += [int(tk[i]), int(tk[i + 1])] + oz(o(tk[i + 2])); i += 3
+            exp = [40, n, kb] + exp_atoms + exp_b
+        else:
+            exp = ["driver error"]
+        if got != exp:
+            comp["diffs"].append({"what": "vm_compute and extracted driver disagree on a molfile text", "text": x[:400], "coq": got[:60], "driver": exp[:60]})
